@@ -19,6 +19,7 @@ from typing import Any
 import falcon
 
 from .._common import (
+    _ARROW_CONTENT_TYPE,
     _ERROR_PAGE_STYLE,
     _FONT_IMPORTS,
     _VGI_LOGO_HTML,
@@ -26,6 +27,23 @@ from .._common import (
     AUTH_REASON_HEADER,
 )
 from .._unauthorized import AuthReason
+from ._responses import _error_response_stream
+
+
+class _RpcContentTooLarge(falcon.HTTPContentTooLarge):
+    """A 413 for an RPC request body, serialized as an Arrow IPC error stream.
+
+    The wire protocol promises that 400 and 413 responses still carry a
+    decodable Arrow IPC body.  Rejections raised from middleware happen before
+    any resource runs, so they reach the client through the error serializer;
+    this marker tells it to keep that promise instead of emitting Falcon's
+    JSON document.
+    """
+
+
+class _RpcBadRequest(falcon.HTTPBadRequest):
+    """A 400 for an RPC request body, serialized as an Arrow IPC error stream."""
+
 
 _NOT_FOUND_HTML_TEMPLATE = (
     """\
@@ -154,8 +172,11 @@ def _wants_html(req: falcon.Request) -> bool:
 def _make_error_serializer(proxy_hint: str = "") -> Callable[[falcon.Request, falcon.Response, falcon.HTTPError], None]:
     """Build the Falcon error serializer for one app.
 
-    Only ``HTTPUnauthorized`` (401) is given the standardized treatment; every
-    other error falls back to Falcon's default JSON serialization.
+    ``HTTPUnauthorized`` (401) is given the standardized treatment, and the
+    request-body rejections raised by the size and decompression middleware
+    (``_RpcContentTooLarge``, ``_RpcBadRequest``) become Arrow IPC error
+    streams; every other error falls back to Falcon's default JSON
+    serialization.
 
     Args:
         proxy_hint: The app's static proxy-configuration note, or ``""`` when
@@ -172,6 +193,11 @@ def _make_error_serializer(proxy_hint: str = "") -> Callable[[falcon.Request, fa
 
     def _serialize(req: falcon.Request, resp: falcon.Response, exc: falcon.HTTPError) -> None:
         """Serialize one Falcon error onto the response."""
+        if isinstance(exc, (_RpcContentTooLarge, _RpcBadRequest)):
+            cause = ValueError(f"{exc.title}: {exc.description}" if exc.description else str(exc.title))
+            resp.content_type = _ARROW_CONTENT_TYPE
+            resp.data = _error_response_stream(cause).getvalue()
+            return
         if not isinstance(exc, falcon.HTTPUnauthorized):
             resp.content_type = falcon.MEDIA_JSON
             resp.data = exc.to_json()
